@@ -145,3 +145,41 @@ def path_vs_steps(ex, n, prv):
     return {"same_key": whole.key == step.key, "same_chain_code": whole.chain_code == step.chain_code, "same_depth": whole.depth == step.depth,
             "same_index": whole.index == step.index, "same_parent_fingerprint": whole.parent_fingerprint == step.parent_fingerprint,
             "same_version": whole.version == step.version}
+
+
+# ------------------------------------------------------------------ BIP85 application paths
+from btclib import bip85 as _bip85
+
+# BIP85 "Language Table" and "Words Table" (transcribed from the BIP)
+_BIP85_LANG = {"en": 0, "ja": 1, "ko": 2, "es": 3, "zh": 4, "zh_tw": 5, "fr": 6, "it": 7, "cs": 8, "pt": 9}
+_BIP85_ENT = {12: 16, 15: 20, 18: 24, 21: 28, 24: 32}
+_H = 0x80000000
+
+
+@ob("C07", "bip85_mnemonic_application_path_and_truncation", quick=[dict(lang=l, words=w) for l in _BIP85_LANG for w in (12, 24)] + [dict(lang="en", words=w) for w in (15, 18, 21)],
+    thorough=[dict(lang=l, words=w) for l in _BIP85_LANG for w in _BIP85_ENT],
+    bound="every language of BIP85's table x sentence length, child index symbolic over 0..7 (case split): the entropy is asked at m/83696968'/39'/language'/words'/index' with the BIP's language code, "
+          "and the sentence is BIP39's over the first 16/20/24/28/32 bytes of it (the 64 entropy bytes symbolic)",
+    stubs=["bip85._entropy_from_der_path records the path and answers 64 symbolic bytes; mnemonic_from_entropy records the entropy it is given"],
+    functions=["btclib.bip85.mnemonic_from_root_key"], min_ok=1)
+def bip85_mnemonic_path(ex, lang, words):
+    from btclib.bip32.der_path import indexes_from_der_path
+    index = ex.concretize(ex.int("index", 0, 7))
+    ent = ex.bytes("ent", 64)
+    seen = {}
+
+    def fake_entropy(root, der_path):
+        seen["path"] = der_path
+        return ent
+
+    def fake_mnemonic(entropy, lang_):
+        seen["entropy"], seen["lang"] = entropy, lang_
+        return "stub sentence"
+    ex.stub(_bip85._entropy_from_der_path, fake_entropy)
+    ex.stub(_bip85.mnemonic_from_entropy, fake_mnemonic)
+    root = BIP32KeyData(XPRV, 0, b"\x00" * 4, 0, b"\x22" * 32, b"\x00" + b"\x01" * 32, check_validity=False)
+    _bip85.mnemonic_from_root_key(root, words, lang, index)
+    want = [83696968 + _H, 39 + _H, _BIP85_LANG[lang] + _H, words + _H, index + _H]
+    got = list(indexes_from_der_path(seen["path"]))
+    n = _BIP85_ENT[words]
+    return {"path_is_the_bips": got == want, "entropy_truncated_to_the_words_table": sand(len(seen["entropy"]) == n, seen["entropy"] == ent[:n]), "language_handed_on": seen["lang"] == lang}
